@@ -7,7 +7,7 @@ THEOREMS = ["Hyp.Keyword." + t for t in (
     "c02_refinement", "c02_eq", "c02_any", "c02_all", "c02_all_nil", "c02_any_nil", "c02_docids",
     "c02_noteq", "c02_notany", "c02_notall", "c02_notall_nil", "c02_no_stale", "c02_no_keyerror",
     "c02_erase_step", "c02_erase_run", "c02_erase_view", "c02_representation_independent",
-    "c02_query_entry_partial", "c02_notall_object_is_all", "c02_notall_object_differs")]
+    "c02_index_entry", "c02_query_entry_partial", "c02_notall_object_is_all", "c02_notall_object_differs")]
 CASES = {"quick": 480, "thorough": 40000}
 BUDGET_S = {"quick": 40, "thorough": 700}
 RULE = ("histories of 5-60 (thorough: up to 400) index/reindex/unindex/reset/optimize/set-threshold calls over "
